@@ -633,7 +633,7 @@ def shared_state_rules(fb, R):
         bad = None
         nfn = 0
         for g in dedupe(E.closure_fns(fb, roots, depth=6)):
-            if not g.q.startswith('osmium::') or not in_io_layer(g):
+            if not g.q.startswith('osmium::') or not (in_io_layer(g) or g.cls in classes or g.q.startswith('osmium::io::')):
                 continue
             nfn += 1
             for (n, v) in local_statics(g):
@@ -884,7 +884,11 @@ def _selftest(fb, R):
     read_thread_rules(fb, R)
     # the conforming twins must stay silent: several rules fire on today's tree, this is their evidence that they can pass
     wrong = [(i.rule, i.key) for i in R.instances.values() if not i.ok and '::Good' in i.key]
-    need = [('G1-no-eof-before-first-pull', NS + 'GoodGzipBufferDecompressor::read#inflate:first-call-asks-the-library'),
+    need = [('P1-stream-init-end-paired', NS + 'GoodGzipBufferDecompressor::read#inflateReset:previous-stream-state-released'),
+            ('P1-stream-init-end-paired', NS + 'GoodGzipBufferDecompressor::close#releases-inflateInit2_-state'),
+            ('P2-inflate-flush-permits-partial-progress', NS + 'GoodGzipBufferDecompressor::read#inflate:flush-permits-partial-progress'),
+            ('Z1-no-shared-mutable-state', NS + 'GoodGzipBufferDecompressor#shared-state'),
+            ('G1-no-eof-before-first-pull', NS + 'GoodGzipBufferDecompressor::read#inflate:first-call-asks-the-library'),
             ('G1-no-eof-before-first-pull', NS + 'GoodBzip2Decompressor::read#BZ2_bzRead:first-call-asks-the-library'),
             ('X5-probed-byte-pushed-back', NS + 'GoodBzip2Decompressor::read#fgetc-byte-pushed-back'),
             ('O1-offset-is-compressed-position', NS + 'GoodBzip2Decompressor::read#offset-source'),
